@@ -437,8 +437,8 @@ fn main() {
         let mut equal = 0u64;
         for i in 0..nfrag {
             let mut r = Rng::for_case(opts.seed ^ 0xF4A6, i);
-            let chain = frag::gen_chain(&mut r, 3, true);
-            let src = frag::src_chain(&chain);
+            let chain = frag::gen_seq(&mut r, 3);
+            let src = frag::src_seq(&chain);
             let unit = match compile_program(&src, &b) {
                 Ok(u) => u,
                 Err(e) => {
@@ -457,6 +457,7 @@ fn main() {
             if case.checks_ok && model_code.as_deref() == Some(case.real.as_str()) {
                 equal += 1;
                 ev.hit("fragment.instruction-sequences-equal");
+                ev.hit(&format!("fragment.steps.{}", chain.len()));
                 if i < 3 {
                     ev.sample(json!({"fragment_source": src, "instructions": case.real}));
                 }
